@@ -40,7 +40,7 @@ func (p *PathBuilder) String() string {
 	sb := NewStringBuilder()
 	defer FreeStringBuilder(sb)
 	for i, v := range *p {
-		if i > 0 && (*p)[i-1] != "" && v[0] != '[' {
+		if i > 0 && (*p)[i-1] != "" && (v == "" || v[0] != '[') {
 			sb.WriteString(".")
 		}
 		sb.WriteString(v)
